@@ -27,6 +27,9 @@ func genName(t *rapid.T, label string) string {
 		return rapid.SampledFrom([]string{"docker", "docker-compose", "ecr", "artifacts", "shellcheck", "my_plugin", "a", "x.y", "plugin-buildkite-plugin", "github.com", "v1", "123", "gitlab.com", "-", "_", "a..b", "A"}).Draw(t, label)
 	default:
 		n := rapid.IntRange(1, 8).Draw(t, label+"len")
+		if rapid.IntRange(0, 39).Draw(t, label+"long") == 0 {
+			n = rapid.IntRange(70, 300).Draw(t, label+"longlen")
+		}
 		var b strings.Builder
 		b.WriteByte(nameFirst[rapid.IntRange(0, len(nameFirst)-1).Draw(t, label+"c0")])
 		for i := 1; i < n; i++ {
@@ -50,6 +53,9 @@ func genRef(t *rapid.T) (string, bool) {
 	n := rapid.IntRange(1, 3).Draw(t, "refparts")
 	if n == 1 || rapid.IntRange(0, 2).Draw(t, "refslash") > 0 {
 		n = 1
+	}
+	if rapid.IntRange(0, 19).Draw(t, "deepref") == 0 {
+		n = rapid.IntRange(4, 9).Draw(t, "deeprefn")
 	}
 	parts := make([]string, n)
 	for i := range parts {
